@@ -3,7 +3,7 @@ from ..core import Script, Rng
 from ..stage import LineStage, replay_line
 from .common import *
 
-ARTEFACTS = ["G1-consts", "G2-rs-portable", "G3b-regions", "G3-arith"]
+ARTEFACTS = ["G1-consts", "G2-rs-portable", "G3b-regions", "G3-arith", "G6-skeleton"]
 RULE = ("op histories of 1-40 ops over up to 4 registers: new(mode), upd/updw(size class), clone, fin, xof+fill, cnt, "
         "(updates through update, Write::write, update_reader over scripted readers incl. short reads, update_rayon, the scripted join) at a forced platform; an exhaustive grid prefix p in 0..17 chunks x batch in 1..40 chunks (shrink loop) plus partial-chunk "
         "prefixes; non-trivial = at least one update after another update or a clone; distinct = distinct script text")
